@@ -191,6 +191,63 @@ Section LUModel.
   Definition matmul (n m p : nat) (a b : mat) : res (list (list El)) :=
     mapM (fun i => mapM (fun j => dot1 m (fun k => a i k) (fun k => b k j)) (seq 0 p)) (seq 0 n).
 
+  (* ---------------- N-d operands (flat, row-major) ---------------- *)
+  (* np.dot(a, b) for a of shape A' + (L,) and b of shape B' + (L, M) (or (L,), then M = 1):
+     result[p, q, m] = sum_l a[p, l] * b[q, l, m], p over the PA = prod A' leading positions of a,
+     q over the QB = prod B' stacks of b; the result is flat in the order (p, q, m) *)
+  Definition nd_dot (PA Ln QB M : nat) (fa fb : nat -> El) : res (list El) :=
+    mapM (fun t => let p := Nat.div t (QB * M) in
+                   let q := Nat.modulo (Nat.div t M) QB in
+                   let m := Nat.modulo t M in
+                   dot1 Ln (fun l => fa (p * Ln + l)) (fun l => fb (q * Ln * M + l * M + m)))
+         (seq 0 (PA * QB * M)).
+
+  Definition prodn (l : list nat) : nat := fold_right Nat.mul 1 l.
+
+  (* multi-index of flat position t in an array of the given shape *)
+  Fixpoint unravel (shape : list nat) (t : nat) : list nat :=
+    match shape with
+    | [] => []
+    | _ :: rest => Nat.div t (prodn rest) :: unravel rest (Nat.modulo t (prodn rest))
+    end.
+
+  (* flat position of a multi-index in an array that is broadcast along its dimensions of size 1 *)
+  Fixpoint ravel_b (shape idx : list nat) : nat :=
+    match shape, idx with
+    | d :: rest, i :: is_ => (if Nat.eqb d 1 then 0 else i) * prodn rest + ravel_b rest is_
+    | _, _ => 0
+    end.
+
+  Fixpoint bshape (sa sb : list nat) : list nat :=
+    match sa, sb with
+    | x :: sa', y :: sb' => (if Nat.eqb x 1 then y else x) :: bshape sa' sb'
+    | _, _ => []
+    end.
+
+  Fixpoint bcast_ok (sa sb : list nat) : bool :=
+    match sa, sb with
+    | x :: sa', y :: sb' => (Nat.eqb x y || Nat.eqb x 1 || Nat.eqb y 1) && bcast_ok sa' sb'
+    | [], [] => true
+    | _, _ => false
+    end.
+
+  (* matmul of stacks: a of shape SA + (n, L), b of shape SB + (L, p), SA and SB of equal length and
+     broadcast against each other: result[s, i, j] = sum_l a[s|SA, i, l] * b[s|SB, l, j] *)
+  Definition nd_matmul (SA SB : list nat) (n Ln p : nat) (fa fb : nat -> El) : res (list El) :=
+    let S := bshape SA SB in
+    mapM (fun t => let s := Nat.div t (n * p) in
+                   let i := Nat.modulo (Nat.div t p) n in
+                   let j := Nat.modulo t p in
+                   let mi := unravel S s in
+                   let ta := ravel_b SA mi in
+                   let tb := ravel_b SB mi in
+                   dot1 Ln (fun l => fa (ta * n * Ln + i * Ln + l)) (fun l => fb (tb * Ln * p + l * p + j)))
+         (seq 0 (prodn S * n * p)).
+
+  (* np.dot with a scalar operand: the element-wise product, scalar on its own side *)
+  Definition nd_scale (lft : bool) (sc : El) (cnt : nat) (fa : nat -> El) : res (list El) :=
+    mapM (fun t => if lft then e_mul L sc (fa t) else e_mul L (fa t) sc) (seq 0 cnt).
+
   (* ---------------- arrays as Python objects: which cells a call writes ---------------- *)
   (* a store maps array identities to contents (1-D arrays use column 0);  [fresh] is the next
      unused identity.  ludcmp and _lubksb assign into the array they are given; solve, invab
